@@ -807,6 +807,25 @@ def _gen_case(rng, shape, ratio, malformed):
             c["turns"] = rng.choice([0, -1])
             c["invalid"] = "turns"
         return c
+    if shape == "spline" and not bad and rng.random() < 0.12:
+        # fine detail far from the origin: control points a few hundredths apart at coordinates in the thousands, traced at a
+        # resolution finer than their spacing (a closeness test relative to the magnitude of the coordinates would merge them)
+        far = [rng.choice([-1, 1]) * float(rng.randint(500, 5000)) for _ in range(3)]
+        c.update(start=far, units="mm", switch=False, dp=rng.choice([5, 6]), fine_far=True)
+        res = rng.choice([0.002, 0.004, 0.005])
+        pts, prev = [], list(far)
+        for _ in range(rng.randint(2, 4)):
+            while True:
+                d = [rng.randint(-3, 3) / 64 for _ in range(3)]
+                if any(d):
+                    break
+            p = [prev[i] + d[i] for i in range(3)]
+            pts.append(p)
+            prev = p
+        P = [far] + pts
+        poly = sum(math.dist(P[i], P[i + 1]) for i in range(len(P) - 1))
+        c.update(points=pts, res=res, est_samples=10 * 1.6 * poly / res)
+        return c
     if shape in ("spline", "polyline"):
         k = rng.randint(1, 6)
         span = max(L / (1.5 * k), 0.25)
